@@ -71,6 +71,26 @@ class AdversarialLeastSquares:
         self.returned = r
         x, f = self.evals[r]
         m = len(f)
+        # active_mask as scipy's trf / dogbox report it: -1 / +1 for entries on (or, within its tolerances, near) the lower /
+        # upper bound, 0 elsewhere.  Over-approximated: the first bounded entry is arbitrarily reported active or not,
+        # whatever the returned point (the code under test must not depend on it); floats: set where x equals the bound.
+        mask = [0] * n
+        offered = 0
+        for i in range(n):
+            sgns = [sgn for b, sgn in ((lb[i], -1), (ub[i], 1))
+                    if not (isinstance(b, (float, np.floating, int)) and abs(float(b)) == INF)]
+            if not sgns or method == "lm":
+                continue
+            if self.symbolic:
+                if offered >= 1:
+                    continue
+                offered += 1
+                mask[i] = sgns[0] if self.ctx.choose(2, f"active_mask_{i}") == 1 else 0
+            else:
+                for b, sgn in ((lb[i], -1), (ub[i], 1)):
+                    if float(x[i]) == float(b):
+                        mask[i] = sgn
+        self.active_mask = mask
         if self.symbolic:
             jac = SymArray((m, n))
             for i in range(m):
@@ -81,7 +101,7 @@ class AdversarialLeastSquares:
             rng = np.random.default_rng(7)
             jac = rng.uniform(0.5, 1.5, size=(m, n))
             optimality = 0.125
-        return OptimizeResult(x=x, fun=f, jac=jac, nfev=len(self.evals), njev=1, optimality=optimality,
+        return OptimizeResult(x=x, fun=f, jac=jac, nfev=len(self.evals), njev=1, optimality=optimality, active_mask=np.array(mask),
                               message="adversarial stub finished", status=1, success=True, cost=None, grad=None)
 
 
